@@ -2,17 +2,20 @@ import H4.Driver.Util
 import H4.Driver.Rle
 import H4.Driver.Slab
 import H4.Driver.Conv
+import H4.Driver.HPIO
 open H4.Driver
 
 /-- state of every stateful engine; reset at each `CASE` line -/
 structure World where
   dummy : Nat := 0
+  hp : H4.HPIO.HP := H4.HPIO.opened []
 
 def stepWorld (w : World) (engine : String) (args : List String) : World × String :=
   match engine with
   | "rle" => (w, stepRle args)
   | "sd" => (w, stepSd args)
   | "conv" => (w, stepConv args)
+  | "hp" => let (h, r) := stepHp w.hp args; ({ w with hp := h }, r)
   | _ => (w, "bad-engine")
 
 structure RunSt where
